@@ -108,7 +108,7 @@ def cases(tier, seed):
 def run_bounded(chk):
     fkey = "coxeter.shapes.polygon::Polygon.__init__ (+ measures end-to-end)"
     chk.functions.setdefault(fkey, {"sha": "-", "paths": 0, "lines": 0, "bounded_only": True})
-    cs = cases(chk.tier, chk.seed)
+    cs = cases(chk.bounded_tier, chk.seed)
     n_bad = n_eval = 0
     for name, pts, R, t in cs:
         for explicit in (True, False):
